@@ -335,6 +335,8 @@ def check_model_failed_fit(ctx, c):
         wbad = c["warmup"]
 
     def mk():
+        if c["model"] == "node":
+            return N.Ridge(ridge=1e-3)
         if c["model"] == "esn":
             return N.ESN(units=6, seed=c["seed"], ridge=1e-3, workers=1)
         if c["model"] == "deep":
@@ -342,9 +344,11 @@ def check_model_failed_fit(ctx, c):
         return N.Reservoir(6, seed=c["seed"]) >> N.Ridge(ridge=1e-3)
 
     def weights(m):
+        if c["model"] == "node":
+            return [np.vstack([np.asarray(m.bias), np.asarray(m.Wout)])]
         nodes = [m.readout] if c["model"] == "esn" else [n for n in m.nodes if type(n).__name__ == "Ridge"]
         return [np.vstack([np.asarray(n.bias), np.asarray(n.Wout)]) for n in nodes]
-    kw = {} if c["model"] == "esn" else {"reset": True}
+    kw = {} if c["model"] in ("esn", "node") else {"reset": True}
     Yfit = Ys if c["model"] != "deep" else None
     ctx.count(c, nontrivial=True, obligation=ob)
     ctx.stat(f"model_failed_fit {c['model']}/{c['failure']} prior={bool(c.get('prior'))}")
@@ -386,7 +390,7 @@ def check_model_failed_fit(ctx, c):
 
 def gen_model_failed_fit(g):
     K = g.randint(2, 4)
-    return {"kind": "model_failed_fit", "model": g.choice(["chain", "chain", "esn", "esn", "deep"]), "failure": g.choice(["short", "features", "targets", "nan"]),
+    return {"kind": "model_failed_fit", "model": g.choice(["chain", "chain", "esn", "esn", "deep", "node"]), "failure": g.choice(["short", "features", "targets", "nan"]),
             "K": K, "lens": [g.randint(8, 14) for _ in range(K)], "bad": g.randint(1, K - 1), "warmup": g.choice([0, 2]),
             "seed": g.randint(0, 10 ** 6), "dseed": g.randint(0, 10 ** 6), "prior": g.chance(0.5)}
 
